@@ -28,7 +28,8 @@ def tlc_cmd(module, cfg, metadir, workers=1, extra=(), jvm=()):
     if not any(a.startswith("-Xmx") for a in jvm):
         # bounded heaps: many single-worker JVMs run side by side (the default, a quarter of the RAM each, got one killed)
         jvm = (*jvm, "-Xmx3g" if workers == 1 else "-Xmx20g")
-    return ["java", "-XX:+UseParallelGC", "-Xss16m", *jvm, "-cp", JAR, "tlc2.TLC",
+    # (TLC leaves a tlc-* directory in java.io.tmpdir per run: keep them inside the run's own scratch directory)
+    return ["java", "-XX:+UseParallelGC", "-Xss16m", f"-Djava.io.tmpdir={metadir}", *jvm, "-cp", JAR, "tlc2.TLC",
             "-workers", str(workers), "-metadir", metadir, "-noGenerateSpecTE",
             "-config", cfg, *extra, module]
 
